@@ -20,15 +20,22 @@ package main
 //	if     := `if` cond block [`else` if | `else` block]           (no else: nothing changes)
 //	switch := `switch c { case v: block … }`                        -> if c = v … else if …
 //	        | `switch l.src[p+1] { case v: block … }`               -> match text[s.pos + 1]? with | some v => …
-//	simple := `l.ctx = ast.ContextX | fileContext` | `quote = c | 0 | 'x'` | `jsComment = jsCommentX`
+//	simple := `l.ctx = ast.ContextX | l.base` | `quote = c | 0 | 'x'` | `jsComment = jsCommentX`
 //	        | `p++` | `p += n` | `l.column++` | `l.column += n`     (columns are not projected)
 //
-// Conditions: `&&`, `||`, `c == 'x'`, `c == quote`, `jsComment == jsCommentX`, `p+1 < len(l.src)`,
-// `l.src[p+1] == 'x' | quote`; `isHTML [&& c == '<'] && isEndScript(l.src[p:])` is the model's
-// `endScriptP text s c` (which tests `c = '<'` itself; accepted without `c == '<'` only inside
-// `case '<'`), likewise isEndStyle; a bound `p+1 < len(l.src)` standing next to an access
-// `l.src[p+1] == …` in the same conjunction is dropped (`text[…]?` is `none` out of bounds).
-// `isHTML` is true and `fileContext` is ContextHTML: the projection is for an HTML file.
+// Conditions: `&&`, `||`, `c == 'x' | 0xNN`, `c == quote`, `jsComment == jsCommentX`, `p+k < len(l.src)`,
+// `l.src[p+k] == 'x' | 0xNN | quote` (k = 1, 2); `isHTML() [&& c == '<'] && isEndScript(l.src[p:])` is the
+// model's `endScriptP text s c` (which tests `c = '<'` itself; accepted without `c == '<'` only inside
+// `case '<'`), likewise isEndStyle; a bound `p+k < len(l.src)` standing in the same conjunction as a
+// conjunct all of whose alternatives are accesses `l.src[p+j] == …` with j ≥ k is dropped (`text[…]?` is
+// `none` out of bounds).
+//
+// The base context. `isHTML` must be the closure `func() bool { return l.base == ast.ContextHTML ||
+// l.base == ast.ContextMarkdown }` and `l.base = l.ctx` must stand, once, with it before the main loop of
+// scan; every other write of `l.base` in lexer.go must be one of the two in lexCode (the result type of a
+// macro / using body, the matching `end`), which are listed in `baseWrites`. The projection is for an HTML
+// file whose delimiters are shows: there `l.base` is ContextHTML throughout, so `isHTML()` is true and
+// `l.ctx = l.base` is `ctx := ContextHTML`.
 // Anything else: "shape not recognised".
 
 import (
@@ -93,20 +100,60 @@ func isSel(e ast.Expr, x, sel string) bool {
 	return ok && isIdent(s.X, x) && s.Sel.Name == sel
 }
 
-// `p+1`
-func isPPlus1(e ast.Expr) bool {
+// `p+k` for k = 1, 2 (0: no)
+func pPlus(e ast.Expr) int {
 	b, ok := e.(*ast.BinaryExpr)
 	if !ok || b.Op != token.ADD || !isIdent(b.X, "p") {
-		return false
+		return 0
 	}
 	l, ok := b.Y.(*ast.BasicLit)
-	return ok && l.Value == "1"
+	if !ok || l.Kind != token.INT {
+		return 0
+	}
+	switch l.Value {
+	case "1":
+		return 1
+	case "2":
+		return 2
+	}
+	return 0
+}
+
+// `l.src[p+k]` for k = 1, 2 (0: no)
+func srcAtP(e ast.Expr) int {
+	ix, ok := e.(*ast.IndexExpr)
+	if !ok || !isSel(ix.X, "l", "src") {
+		return 0
+	}
+	return pPlus(ix.Index)
 }
 
 // `l.src[p+1]`
-func isSrcAtP1(e ast.Expr) bool {
-	ix, ok := e.(*ast.IndexExpr)
-	return ok && isSel(ix.X, "l", "src") && isPPlus1(ix.Index)
+func isSrcAtP1(e ast.Expr) bool { return srcAtP(e) == 1 }
+
+// accessAt: e is `l.src[p+j] == …` or a disjunction of such; the smallest j (0: e is something else)
+func accessAt(e ast.Expr) int {
+	if p, ok := e.(*ast.ParenExpr); ok {
+		return accessAt(p.X)
+	}
+	b, ok := e.(*ast.BinaryExpr)
+	if !ok {
+		return 0
+	}
+	switch b.Op {
+	case token.EQL:
+		return srcAtP(b.X)
+	case token.LOR:
+		x, y := accessAt(b.X), accessAt(b.Y)
+		if x == 0 || y == 0 {
+			return 0
+		}
+		if y < x {
+			return y
+		}
+		return x
+	}
+	return 0
 }
 
 // a byte value: a rune literal or the variable `quote`
@@ -120,6 +167,11 @@ func (g *lccGen) byteVal(e ast.Expr) (string, error) {
 		}
 		if v.Kind == token.INT && v.Value == "0" {
 			return "0", nil
+		}
+		if v.Kind == token.INT && len(v.Value) == 4 && strings.HasPrefix(v.Value, "0x") {
+			if n, err := strconv.ParseUint(v.Value[2:], 16, 8); err == nil {
+				return fmt.Sprintf("0x%02x", n), nil
+			}
 		}
 	case *ast.Ident:
 		if v.Name == "quote" {
@@ -162,6 +214,12 @@ func isEndCall(e ast.Expr) (string, bool) {
 	return "endStyleP text s c", true
 }
 
+// `name()`
+func isCallNoArgs(e ast.Expr, name string) bool {
+	c, ok := e.(*ast.CallExpr)
+	return ok && isIdent(c.Fun, name) && len(c.Args) == 0 && !c.Ellipsis.IsValid()
+}
+
 func isCEq(e ast.Expr, lit string) bool {
 	b, ok := e.(*ast.BinaryExpr)
 	if !ok || b.Op != token.EQL || !isIdent(b.X, "c") {
@@ -187,7 +245,7 @@ func (g *lccGen) cond(e ast.Expr, caseByte string) (string, error) {
 						continue
 					}
 					switch {
-					case isIdent(r, "isHTML"):
+					case isCallNoArgs(r, "isHTML"):
 					case isCEq(r, "'<'"):
 						hasLT = true
 					default:
@@ -200,16 +258,16 @@ func (g *lccGen) cond(e ast.Expr, caseByte string) (string, error) {
 				return name, nil
 			}
 		}
-		// a bound next to an access is subsumed by `[…]?`
-		hasAccess := false
+		// a bound next to an access at the same or a later index is subsumed by `[…]?`
+		maxAccess := 0
 		for _, o := range ops {
-			if b, ok := o.(*ast.BinaryExpr); ok && b.Op == token.EQL && isSrcAtP1(b.X) {
-				hasAccess = true
+			if j := accessAt(o); j > maxAccess {
+				maxAccess = j
 			}
 		}
 		var parts []string
 		for _, o := range ops {
-			if hasAccess && g.isBound(o) {
+			if k := g.boundAt(o); k > 0 && k <= maxAccess {
 				continue
 			}
 			s, err := g.cond(o, caseByte)
@@ -256,29 +314,32 @@ func (g *lccGen) cond(e ast.Expr, caseByte string) (string, error) {
 				return "", g.errf(e, "unknown jsComment constant")
 			}
 			return fmt.Sprintf("s.jsComment = %d", n), nil
-		case isSrcAtP1(b.X):
+		case srcAtP(b.X) > 0:
 			v, err := g.byteVal(b.Y)
 			if err != nil {
 				return "", err
 			}
-			return "text[s.pos + 1]? = some " + v, nil
+			return fmt.Sprintf("text[s.pos + %d]? = some %s", srcAtP(b.X), v), nil
 		}
 	case token.LSS:
-		if g.isBound(e) {
-			return "s.pos + 1 < text.length", nil
+		if k := g.boundAt(e); k > 0 {
+			return fmt.Sprintf("s.pos + %d < text.length", k), nil
 		}
 	}
 	return "", g.errf(e, "condition")
 }
 
-// `p+1 < len(l.src)`
-func (g *lccGen) isBound(e ast.Expr) bool {
+// `p+k < len(l.src)`: k (0: no)
+func (g *lccGen) boundAt(e ast.Expr) int {
 	b, ok := e.(*ast.BinaryExpr)
-	if !ok || b.Op != token.LSS || !isPPlus1(b.X) {
-		return false
+	if !ok || b.Op != token.LSS || pPlus(b.X) == 0 {
+		return 0
 	}
 	c, ok := b.Y.(*ast.CallExpr)
-	return ok && isIdent(c.Fun, "len") && len(c.Args) == 1 && isSel(c.Args[0], "l", "src")
+	if ok && isIdent(c.Fun, "len") && len(c.Args) == 1 && isSel(c.Args[0], "l", "src") {
+		return pPlus(b.X)
+	}
+	return 0
 }
 
 func (g *lccGen) simple(st ast.Stmt, leaf *lccLeaf) error {
@@ -307,7 +368,7 @@ func (g *lccGen) simple(st ast.Stmt, leaf *lccLeaf) error {
 			}
 			return nil
 		case s.Tok == token.ASSIGN && isSel(s.Lhs[0], "l", "ctx"):
-			if isIdent(s.Rhs[0], "fileContext") {
+			if isSel(s.Rhs[0], "l", "base") {
 				leaf.ctx = "ContextHTML"
 				return nil
 			}
@@ -439,6 +500,91 @@ func (g *lccGen) switchStmt(s *ast.SwitchStmt, ind string) (string, error) {
 	return b.String(), nil
 }
 
+// pinBase checks how scan establishes the base context and lists every write of `l.base` in the file.
+func (g *lccGen) pinBase(f *ast.File, scan *ast.FuncDecl) ([][2]string, error) {
+	const wantIsHTML = "isHTML := func() bool { return l.base == ast.ContextHTML || l.base == ast.ContextMarkdown }"
+	// the block of scan that holds the labelled main loop
+	var blk *ast.BlockStmt
+	loopAt := -1
+	ast.Inspect(scan, func(n ast.Node) bool {
+		b, ok := n.(*ast.BlockStmt)
+		if !ok {
+			return true
+		}
+		for i, st := range b.List {
+			if ls, ok := st.(*ast.LabeledStmt); ok && ls.Label.Name == "LOOP" {
+				if _, ok := ls.Stmt.(*ast.ForStmt); ok && blk == nil {
+					blk, loopAt = b, i
+				}
+			}
+		}
+		return true
+	})
+	if blk == nil {
+		return nil, fmt.Errorf("shape not recognised: no `LOOP: for` in lexer.scan")
+	}
+	nBase, nIsHTML := 0, 0
+	for _, st := range blk.List[:loopAt] {
+		switch g.src(st) {
+		case "l.base = l.ctx":
+			nBase++
+		case wantIsHTML:
+			nIsHTML++
+		}
+	}
+	if nBase != 1 || nIsHTML != 1 {
+		return nil, g.errf(blk, "before the main loop of scan: %d `l.base = l.ctx`, %d `%s` (want one each)", nBase, nIsHTML, wantIsHTML)
+	}
+	// no other definition or assignment of isHTML, no other mention of l.base on a left-hand side in scan
+	var bad ast.Node
+	var writes [][2]string
+	for _, d := range f.Decls {
+		fd, ok := d.(*ast.FuncDecl)
+		if !ok || fd.Body == nil {
+			continue
+		}
+		ast.Inspect(fd.Body, func(n ast.Node) bool {
+			switch x := n.(type) {
+			case *ast.AssignStmt:
+				for i, l := range x.Lhs {
+					if isSel(l, "l", "base") {
+						if x.Tok != token.ASSIGN || len(x.Lhs) != len(x.Rhs) {
+							bad = x
+							break
+						}
+						writes = append(writes, [2]string{fd.Name.Name, g.src(x.Rhs[i])})
+					}
+					if fd == scan && isIdent(l, "isHTML") && g.src(x) != wantIsHTML {
+						bad = x
+					}
+				}
+			case *ast.IncDecStmt:
+				if isSel(x.X, "l", "base") {
+					bad = x
+				}
+			case *ast.UnaryExpr:
+				if x.Op == token.AND && (isSel(x.X, "l", "base") || isIdent(x.X, "isHTML")) {
+					bad = x
+				}
+			}
+			return true
+		})
+	}
+	if bad != nil {
+		return nil, g.errf(bad, "write of l.base / isHTML in an unexpected form")
+	}
+	want := [][2]string{{"scan", "l.ctx"}, {"lexCode", "l.ctx"}, {"lexCode", "l.bases[last]"}}
+	if len(writes) != len(want) {
+		return nil, g.errf(scan, "%d writes of l.base in lexer.go (want %d: %v)", len(writes), len(want), want)
+	}
+	for i := range want {
+		if writes[i] != want[i] {
+			return nil, g.errf(scan, "write %d of l.base is %v (want %v)", i, writes[i], want[i])
+		}
+	}
+	return writes, nil
+}
+
 func genLexCtxCases(repo string) (string, error) {
 	g := &lccGen{jsConsts: map[string]int{}}
 	g.fset = token.NewFileSet()
@@ -462,6 +608,10 @@ func genLexCtxCases(repo string) (string, error) {
 	}
 	if scan == nil {
 		return "", fmt.Errorf("shape not recognised: no method scan in lexer.go")
+	}
+	baseWrites, err := g.pinBase(f, scan)
+	if err != nil {
+		return "", err
 	}
 	want := []string{"ContextCSS", "ContextCSSString", "ContextJS", "ContextJSString", "ContextJSON", "ContextJSONString"}
 	clauses := map[string]*ast.CaseClause{}
@@ -502,6 +652,16 @@ func genLexCtxCases(repo string) (string, error) {
 			out.WriteString(", ")
 		}
 		fmt.Fprintf(&out, "(%q, %d)", n, i)
+	}
+	out.WriteString("]\n\n")
+	out.WriteString("/-- every assignment to `l.base` in lexer.go: (function, right-hand side). The one in scan stands before\n")
+	out.WriteString("the main loop; the others belong to the statements of a macro / using body, which the projection excludes. -/\n")
+	out.WriteString("def baseWrites : List (String × String) := [")
+	for i, w := range baseWrites {
+		if i > 0 {
+			out.WriteString(", ")
+		}
+		fmt.Fprintf(&out, "(%q, %q)", w[0], w[1])
 	}
 	out.WriteString("]\n\n")
 	for _, w := range want {
